@@ -21,53 +21,58 @@ def run(tier):
     P = rxmc.load_patterns()
     giw, gsec = athlib.get_implement_weight, athlib.get_specific_event_code
     acc = Acc()
-    # ---- specific codes
-    for ev in THROWS:
-        for g in ('M', 'F', 'm', 'f', 'Male', 'Female', 'MALE', 'female', ' F', 'M ', 'Men', 'Women', 'W', 'X', ''):
-            for label in (PRODUCED + OTHER if g in ('M', 'F') else PRODUCED[::2] + OTHER[:4]):
-                acc.n += 1
-                case = dict(event=ev, gender=g, age_group=label)
-                produced = label in PRODUCED
-                try:
-                    w = giw(ev, g, label)
-                except Exception as e:
-                    acc.bad('weight-raises:%s' % type(e).__name__, case, repr(e))
-                    continue
-                try:
-                    r = gsec(ev, g, label)
-                except Exception as e:
-                    acc.bad('specific-code-raises:%s:%s' % (type(e).__name__, 'produced-label' if produced else 'other-label'), case,
-                            'get_specific_event_code raised %r (implement weight %r)' % (e, w))
-                    continue
-                if not isinstance(r, str) or not P['PAT_THROWS'].match(r):
-                    acc.bad('specific-code-not-a-throws-code', case, 'returned %r' % (r,))
-                    continue
-                try:
-                    n = U.normalize_event_code(r)
-                except Exception as e:
-                    n = 'raised %r' % e
-                if n != r:
-                    acc.bad('specific-code-not-normalised', case, 'returned %r, normal form %r' % (r, n))
-                    continue
-                rest = r[len(ev):]
-                if not r.startswith(ev):
-                    acc.bad('specific-code-for-another-event', case, 'returned %r' % (r,))
-                    continue
-                if w == '':
-                    if rest != '':
-                        acc.bad('specific-code-has-weight-the-table-does-not-report', case, 'code %r but implement weight is unknown' % (r,))
-                    continue
-                wk = float(w)
-                kg = wk if wk < 99 else wk / 1000.0      # the table reports kg, or grams for javelins
-                m = re.match(r'^(\d+(?:\.\d+)?)(K?)$', rest)
-                if not m:
-                    acc.bad('specific-code-weight-unreadable', case, 'code %r' % (r,))
-                    continue
-                ckg = float(m.group(1)) if m.group(2) == 'K' else float(m.group(1)) / 1000.0
-                if abs(ckg - kg) > 1e-9:
-                    acc.bad('specific-code-weight-differs-from-table', case, 'code %r = %g kg, table reports %r' % (r, ckg, w))
-                else:
-                    acc.nontrivial += 1
+    # ---- specific codes (also under a lowered ambient decimal precision: a host application that prints three significant figures has set it)
+    import decimal
+    for ctx_prec in (None, 3, 2):
+     with decimal.localcontext() as _ctx:
+      if ctx_prec:
+          _ctx.prec = ctx_prec
+      for ev in THROWS:
+          for g in ('M', 'F', 'm', 'f', 'Male', 'Female', 'MALE', 'female', ' F', 'M ', 'Men', 'Women', 'W', 'X', ''):
+              for label in (PRODUCED + OTHER if g in ('M', 'F') else PRODUCED[::2] + OTHER[:4]):
+                  acc.n += 1
+                  case = dict(event=ev, gender=g, age_group=label, **({'decimal_context_prec': ctx_prec} if ctx_prec else {}))
+                  produced = label in PRODUCED
+                  try:
+                      w = giw(ev, g, label)
+                  except Exception as e:
+                      acc.bad('weight-raises:%s' % type(e).__name__, case, repr(e))
+                      continue
+                  try:
+                      r = gsec(ev, g, label)
+                  except Exception as e:
+                      acc.bad('specific-code-raises:%s:%s' % (type(e).__name__, 'produced-label' if produced else 'other-label'), case,
+                              'get_specific_event_code raised %r (implement weight %r)' % (e, w))
+                      continue
+                  if not isinstance(r, str) or not P['PAT_THROWS'].match(r):
+                      acc.bad('specific-code-not-a-throws-code', case, 'returned %r' % (r,))
+                      continue
+                  try:
+                      n = U.normalize_event_code(r)
+                  except Exception as e:
+                      n = 'raised %r' % e
+                  if n != r:
+                      acc.bad('specific-code-not-normalised', case, 'returned %r, normal form %r' % (r, n))
+                      continue
+                  rest = r[len(ev):]
+                  if not r.startswith(ev):
+                      acc.bad('specific-code-for-another-event', case, 'returned %r' % (r,))
+                      continue
+                  if w == '':
+                      if rest != '':
+                          acc.bad('specific-code-has-weight-the-table-does-not-report', case, 'code %r but implement weight is unknown' % (r,))
+                      continue
+                  wk = float(w)
+                  kg = wk if wk < 99 else wk / 1000.0      # the table reports kg, or grams for javelins
+                  m = re.match(r'^(\d+(?:\.\d+)?)(K?)$', rest)
+                  if not m:
+                      acc.bad('specific-code-weight-unreadable', case, 'code %r' % (r,))
+                      continue
+                  ckg = float(m.group(1)) if m.group(2) == 'K' else float(m.group(1)) / 1000.0
+                  if abs(ckg - kg) > 1e-9:
+                      acc.bad('specific-code-weight-differs-from-table', case, 'code %r = %g kg, table reports %r' % (r, ckg, w))
+                  else:
+                      acc.nontrivial += 1
     # ---- masters never get heavier
     for ev in THROWS:
       for g in ('M', 'F'):
@@ -152,6 +157,10 @@ def replay(rec):
     c = rec['case']
     print(rec['sig'], '-', rec['msg'])
     if 'event' in c:
+        import decimal
+        if c.get('decimal_context_prec'):
+            decimal.getcontext().prec = c['decimal_context_prec']
+            print('decimal.getcontext().prec =', c['decimal_context_prec'])
         try:
             print('weight', repr(athlib.get_implement_weight(c['event'], c['gender'], c['age_group'])))
             print('code  ', repr(athlib.get_specific_event_code(c['event'], c['gender'], c['age_group'])))
